@@ -1,3 +1,4 @@
+import threading
 import warnings
 from collections import defaultdict
 from contextlib import contextmanager
@@ -91,7 +92,8 @@ def find_top_boxed_args(args):
     return top_boxes, top_trace, top_node_type
 
 
-class TraceStack:
+class TraceStack(threading.local):
+    # one trace-depth counter per thread: differentiations running in different threads must not share levels
     def __init__(self):
         self.top = -1
 
